@@ -225,7 +225,7 @@ def run(ctx):
     from props import helpers as _helpers_psd
     ctx.guard(_helpers_psd.lean_psd, ctx, "C07", ['Pvx.congr_psd', 'Pvx.sum_psd', 'Pvx.innovation_cov_pd', 'Pvx.pd_symmetric', 'Pvx.joseph_psd',
                                                    'Pvx.joseph_symmetric', 'Pvx.never_larger', 'Pvx.information_additive'])
-    ctx.guard(_helpers_psd.lean_kalman, ctx, "C07", ['Pvx.joseph_eq_short', 'Pvx.gain_is_PHtSinv', 'Pvx.information_form', 'Pvx.information_two_blocks'])
+    ctx.guard(_helpers_psd.lean_kalman, ctx, "C07", ['Pvx.joseph_eq_short', 'Pvx.gain_is_PHtSinv', 'Pvx.information_form', 'Pvx.gain_form_solves_normal_equations', 'Pvx.information_two_blocks'])
     ctx.guard(_algebra, ctx, py)
     ctx.guard(_standin, ctx, py)
 
